@@ -14,11 +14,11 @@ func init() {
 		lean: []string{"JSight.Props.C15"},
 		exes: []string{"jsight-model"},
 		run:  runC15,
-		rule: "texts: all strings over {a,space,tab,LF,CR,(,),#} up to the length bound + random longer multi-line texts; non-trivial = at least two lines or leading blanks; end-to-end: the same text bare and parenthesised on all four description hosts",
+		rule: "texts: all strings over {a,space,tab,LF,CR,(,),#} up to the length bound + all sequences of up to 4 (thorough: 5) pieces over {a,space,tab,LF,(,),VT, U+00A0 (C2 A0), U+2028 (E2 80 A8), U+3000 (E3 80 80), and the lone bytes C2, E2, A8, 80, 85 (invalid / truncated UTF-8)} + random longer multi-line texts over both alphabets; non-trivial = at least two lines or leading blanks; end-to-end: the same text bare and parenthesised on all four description hosts",
 		assume: []string{
-			"bytes.TrimSpace / regexp \\s agree with their ASCII models on ASCII input (multi-byte Unicode spaces are compared by correspondence only on random input)",
+			"bytes.TrimSpace / strings.TrimSpace remove exactly the byte sequences of Model/Descr.lean spaceSeqs (unicode.IsSpace, UTF-8 encoded; invalid UTF-8 is not space) and regexp \\s is [\\t\\n\\f\\r ]: compared by correspondence on the enumerated and random texts, including multi-byte spaces and invalid UTF-8",
 		},
-		trusted: []string{"modelled, not verified: bytes.TrimSpace, bytes.Trim*, bytes.Split/Join, regexp \\s+ (ASCII byte-level models in Model/Descr.lean)"},
+		trusted: []string{"modelled, not verified: bytes.TrimSpace / strings.TrimSpace (byte-level, Unicode spaces included), bytes.Trim*, bytes.Split/Join, regexp \\s+ (byte-level models in Model/Descr.lean)"},
 	}
 }
 
@@ -37,9 +37,32 @@ func runC15(ctx *Ctx) {
 	enumStrings([]byte{'a', ' ', '\t', '\n', '\r', '(', ')', '#'}, ctx.Len(6, 7), func(s []byte) {
 		texts = append(texts, append([]byte(nil), s...))
 	})
+	// pieces: ASCII, the UTF-8 encodings of some Unicode spaces (trimmed by TrimSpace, not matched by the regexp \s),
+	// and lone lead / continuation bytes (invalid or truncated UTF-8: not space, trimming stops there)
+	pieces := [][]byte{{'a'}, {' '}, {'\t'}, {'\n'}, {'('}, {')'}, {0x0b},
+		{0xC2, 0xA0}, {0xE2, 0x80, 0xA8}, {0xE3, 0x80, 0x80}, {0xC2}, {0xE2}, {0xA8}, {0x80}, {0x85}}
+	enumPieces(pieces, ctx.Len(4, 5), func(s []byte) {
+		texts = append(texts, append([]byte(nil), s...))
+	})
 	r := ctx.Rng.Fork()
 	for i := 0; i < ctx.Budget(30000, 1000000); i++ {
 		texts = append(texts, r.Bytes([]byte{'a', 'b', ' ', ' ', '\t', '\n', '\n', '\r', '(', ')', '#', 'G'}, r.Intn(30)))
+	}
+	// random texts with all the multi-byte spaces of unicode.IsSpace, their fragments, and arbitrary bytes
+	uni := [][]byte{{'a'}, {'b'}, {' '}, {' '}, {'\t'}, {'\n'}, {'\n'}, {'\r'}, {'('}, {')'}, {0x0b}, {0x0c},
+		{0xC2, 0x85}, {0xC2, 0xA0}, {0xE1, 0x9A, 0x80}, {0xE2, 0x80, 0x80}, {0xE2, 0x80, 0x85}, {0xE2, 0x80, 0x8A}, {0xE2, 0x80, 0x8B},
+		{0xE2, 0x80, 0xA8}, {0xE2, 0x80, 0xA9}, {0xE2, 0x80, 0xAF}, {0xE2, 0x81, 0x9F}, {0xE3, 0x80, 0x80}, {0xEF, 0xBF, 0xBD}, {0xC3, 0xA9},
+		{0xC2}, {0xE1}, {0xE2}, {0xE3}, {0xE2, 0x80}, {0x80}, {0x85}, {0xA0}, {0xA8}, {0x9F}, {0xF0, 0x9A, 0x80}, {0xFF}}
+	for i := 0; i < ctx.Budget(30000, 1000000); i++ {
+		var t []byte
+		for k := r.Intn(12); k > 0; k-- {
+			if r.Intn(16) == 0 {
+				t = append(t, byte(r.Intn(256)))
+			} else {
+				t = append(t, uni[r.Intn(len(uni))]...)
+			}
+		}
+		texts = append(texts, t)
 	}
 	reqs := make([]string, len(texts))
 	for i, t := range texts {
@@ -86,12 +109,31 @@ func runC15(ctx *Ctx) {
 		}
 		// annotation: idempotent, blanks-insensitive
 		a := catalog.Annotation(string(t))
-		if catalog.Annotation(a) != a || catalog.Annotation(" "+string(t)+"  ") != a {
+		if catalog.Annotation(a) != a || catalog.Annotation(" "+string(t)+"  ") != a || catalog.Annotation("\u2028"+string(t)+"\u00a0") != a {
 			ctx.Violate(Violation{Kind: "wrong-output", Site: "catalog.Annotation", What: fmt.Sprintf("annotation of %q is not stable: %q", t, a), Input: map[string]any{"op": "annot", "text": hx(t)}, Signature: "annot-stable"})
 		}
 	}
 	ctx.Cov.Sample(map[string]any{"text": "  foo\n    bar\n", "description": string(mustDescr([]byte("  foo\n    bar\n")))})
 	c15EndToEnd(ctx, r)
+}
+
+// enumPieces: all concatenations of at most n pieces
+func enumPieces(pieces [][]byte, n int, f func([]byte)) {
+	var buf []byte
+	var rec func(k int)
+	rec = func(k int) {
+		f(buf)
+		if k == n {
+			return
+		}
+		for _, p := range pieces {
+			l := len(buf)
+			buf = append(buf, p...)
+			rec(k + 1)
+			buf = buf[:l]
+		}
+	}
+	rec(0)
 }
 
 func mustDescr(b []byte) []byte {
